@@ -186,6 +186,10 @@ def run(chk, tier):
                     if (v6 and argsof('set_unicast_hops_v6') != [['ttl']]) or (not v6 and (argsof('set_ttl') != [['ttl']] or argsof('set_tos') != [['net.tos.0']])):
                         problems['R5'].append('ttl/tos/hop-limit arguments wrong')
                     sa = argsof('send_to')[0]
+                    ba = argsof('bind')[0][0]
+                    if not re.fullmatch(r'call:SocketAddr::new\(IpAddr::V[46]\(net\.src_addr\), %s\)' % re.escape(vshow(N.simp(c.probe[4][2]))), ba) or \
+                            not re.fullmatch(r'call:SocketAddr::new\(IpAddr::V[46]\(target\), %s\)' % re.escape(vshow(N.simp(c.probe[4][3]))), sa[1]):
+                        problems['R5'].append('datagram socket is bound to %s and sends to %s; expected (source address, probe source port) and (target, probe destination port)' % (ba[:70], sa[1][:70]))
                     if not _len_equal(N, [cc for n_, cc in calls if n_ == 'send_to'][0][7][1], hdr_ip + 8) or 'net.payload_pattern.0' not in sa[0]:
                         problems['R2'].append('datagram payload %s is not the pattern of packet_size − %d octets' % (sa[0][:70], hdr_ip + 8))
             elif v6:
